@@ -14,6 +14,8 @@ Headline theorems
 * `explicit_vr_un_misread` that hypothesis cannot be dropped: the real decoder mis-reads such data
                            (finding `explicit-first-vr-disagrees-dict`)
 * `flexible_option_*`      the same through the reader option (`readWithOptions`), incl. big endian
+* `adaptive_eq_explicit_strays`, `adaptive_eq_implicit_strays`   the same with any number of leading stray item
+                           delimitation items (skipped by the reader, leaving the decoder undecided)
 Caveats made explicit in the statements: runs over the implicit decoder are compared up to `normOut`
 (the implicit decoder reports end of input in an item header as a different error kind, so a stream
 cut inside a pixel data sequence ends with an error there and gracefully under the adaptive decoder);
@@ -411,7 +413,22 @@ theorem fffe_group_length_differs :
 /-- the VR that the Implicit VR decoder takes from a dictionary entry is always compatible with it:
 explicit data written with the dictionary's VRs satisfies `explicitFirstOk` -/
 theorem vrCompat_relaxed (v : VVr) : vrCompat v.relaxed v = true := by
-  cases v <;> simp [vrCompat, VVr.relaxed]
+  cases v with
+  | exact vr => cases vr <;> decide
+  | _ => decide
+
+/-- the extracted table is the one the statement's reading assumes: an exact dictionary VR is compatible
+with itself only, `Xs` with US/SS, `Ox` and `Px` with OB/OW, `Lt` with US/OW (re-checked against the source
+on every run: a changed arm of `vr_compatible_with_virtual` changes `Gen/VrCompat.lean`) -/
+theorem vrCompat_table (p : VR) :
+    (∀ vr, vrCompat p (.exact vr) = decide (p = vr)) ∧
+    vrCompat p .xs = decide (p = .US ∨ p = .SS) ∧
+    vrCompat p .ox = decide (p = .OB ∨ p = .OW) ∧
+    vrCompat p .px = decide (p = .OB ∨ p = .OW) ∧
+    vrCompat p .lt = decide (p = .US ∨ p = .OW) := by
+  refine ⟨fun vr => ?_, ?_, ?_, ?_, ?_⟩
+  · cases p <;> cases vr <;> decide
+  all_goals cases p <;> decide
 
 /-! ### through the reader option -/
 
@@ -460,5 +477,200 @@ example : ∀ t : Tag, t.group = 0xFFFE → resolveImplicitVr (relaxedDict wDict
     have b : t ≠ ⟨0x0008, 0x0060⟩ := by intro h; rw [h] at ht; simp at ht
     simp [a, b]
   simp [resolveImplicitVr, h1, h2, relaxedDict, h3]
+
+
+/-! ### leading stray item delimiters -/
+
+variable {σ1 σ2 : Type}
+
+/-- a stray item delimitation item: the tag (FFFE,E00D) and any four length bytes -/
+def stray (a b c d : Nat) : Bytes := [0xFE, 0xFF, 0x0D, 0xE0, a, b, c, d]
+
+/-- `k` stray item delimitation items (their length bytes taken from `ls`) in front of `bs` -/
+def strays : List (Nat × Nat × Nat × Nat) → Bytes → Bytes
+  | [], bs => bs
+  | (a, b, c, d) :: ls, bs => stray a b c d ++ strays ls bs
+
+/-- the reader at the top level of a data set, between elements, nothing open -/
+structure Fresh (s : RSt) : Prop where
+  hardBreak : s.hardBreak = false
+  pending : s.pending = false
+  inSeq : s.inSeq = false
+  last : s.last = none
+  stack : s.stack = []
+
+theorem Fresh.pre {cfg : Cfg} {be g : Bool} {s : RSt} (h : Fresh s) : preHeader cfg be g s = .go s := by
+  unfold preHeader
+  simp only [h.pending, Bool.false_eq_true, if_false]
+  unfold preBody
+  simp [h.inSeq, h.stack, h.last]
+
+theorem headerStep_stray (cfg : Cfg) (s : RSt) (len : Nat) (rest : Bytes) (h : Fresh s) :
+    headerStep cfg (.ok ⟨Tag.itemDelim, .UN, len⟩ 8 rest) s = .go { s with src := rest, pos := s.pos + 8 } := by
+  simp only [headerStep]
+  have hstack : s.stack.isEmpty = true := by simp [h.stack]
+  split <;> simp [Tag.itemDelim, hstack]
+
+theorem Fresh.skip {s : RSt} (h : Fresh s) (rest : Bytes) (p : Nat) : Fresh { s with src := rest, pos := p } :=
+  ⟨h.hardBreak, h.pending, h.inSeq, h.last, h.stack⟩
+
+/-- **lock-step over leading stray delimiters** — two decoders that both read a stray item delimitation item
+as `(FFFE,E00D) UN len` / 8 bytes without changing state, and that agree on the first real header
+(`hfirst`), make the reader take the same step from any fresh state whose source is `strays ls bs` -/
+theorem next_strays_sim (cfg : Cfg) (D1 : Dec σ1) (D2 : Dec σ2) (d1 : σ1) (d2 : σ2) (R : σ1 → σ2 → Prop)
+    (bs : Bytes)
+    (hs1 : ∀ a b c d rest, ∃ len, D1.header d1 (stray a b c d ++ rest) = (.ok ⟨Tag.itemDelim, .UN, len⟩ 8 rest, d1) ∧
+      (D2.header d2 (stray a b c d ++ rest)) = (.ok ⟨Tag.itemDelim, .UN, len⟩ 8 rest, d2))
+    (hr : (D1.header d1 bs).1 = (D2.header d2 bs).1)
+    (hnogo : ∀ s s', Fresh s → headerStep cfg (D1.header d1 bs).1 s ≠ .go s')
+    (hR : (D1.header d1 bs).1.isOk = true → R (D1.header d1 bs).2 (D2.header d2 bs).2)
+ :
+    ∀ (ls : List (Nat × Nat × Nat × Nat)) (f : Nat) (s : RSt), Fresh s → s.src = strays ls bs →
+      (next cfg D1 f (d1, s)).1 = (next cfg D2 f (d2, s)).1 ∧
+      (next cfg D1 f (d1, s)).2.2 = (next cfg D2 f (d2, s)).2.2 ∧
+      ((next cfg D1 f (d1, s)).1.isTok = true → R (next cfg D1 f (d1, s)).2.1 (next cfg D2 f (d2, s)).2.1) := by
+  intro ls
+  induction ls with
+  | nil =>
+    intro f s hf hsrc
+    simp only [strays] at hsrc
+    cases f with
+    | zero => simp [next, Out.isTok]
+    | succ f =>
+      unfold next
+      simp only [hf.hardBreak, Bool.false_eq_true, if_false, hf.pre, hsrc]
+      rw [← hr]
+      cases hstep : headerStep cfg (D1.header d1 bs).1 s with
+      | go s' => exact absurd hstep (hnogo s s' hf)
+      | ret o s' =>
+        simp only
+        refine ⟨trivial, trivial, ?_⟩
+        intro ht
+        cases o with
+        | tok t => exact hR (headerStep_tok_isOk hstep)
+        | err e => simp [Out.isTok] at ht
+        | done => simp [Out.isTok] at ht
+  | cons q ls ih =>
+    intro f s hf hsrc
+    obtain ⟨a, b, c, d⟩ := q
+    simp only [strays] at hsrc
+    cases f with
+    | zero => simp [next, Out.isTok]
+    | succ f =>
+      obtain ⟨len, h1, h2⟩ := hs1 a b c d (strays ls bs)
+      unfold next
+      simp only [hf.hardBreak, Bool.false_eq_true, if_false, hf.pre, hsrc, h1, h2,
+        headerStep_stray cfg s len _ hf]
+      exact ih f _ ⟨rfl, hf.pending, hf.inSeq, hf.last, hf.stack⟩ rfl
+
+
+theorem run_strays_sim (cfg : Cfg) (D1 : Dec σ1) (D2 : Dec σ2) (d1 : σ1) (d2 : σ2) (R : σ1 → σ2 → Prop)
+    (bs : Bytes) (f : Out → Out) (total : Nat)
+    (hs1 : ∀ a b c d rest, ∃ len, D1.header d1 (stray a b c d ++ rest) = (.ok ⟨Tag.itemDelim, .UN, len⟩ 8 rest, d1) ∧
+      (D2.header d2 (stray a b c d ++ rest)) = (.ok ⟨Tag.itemDelim, .UN, len⟩ 8 rest, d2))
+    (hr : (D1.header d1 bs).1 = (D2.header d2 bs).1)
+    (hnogo : ∀ s s', Fresh s → headerStep cfg (D1.header d1 bs).1 s ≠ .go s')
+    (hR : (D1.header d1 bs).1.isOk = true → R (D1.header d1 bs).2 (D2.header d2 bs).2)
+    (hrest : ∀ e1 e2 s cap, R e1 e2 →
+      (run cfg D1 total cap (e1, s)).map (mapOut f) = (run cfg D2 total cap (e2, s)).map (mapOut f))
+    (ls : List (Nat × Nat × Nat × Nat)) (cap : Nat) (s : RSt) (hf : Fresh s) (hsrc : s.src = strays ls bs) :
+    (run cfg D1 total cap (d1, s)).map (mapOut f) = (run cfg D2 total cap (d2, s)).map (mapOut f) := by
+  cases cap with
+  | zero => simp [run]
+  | succ cap =>
+    have hn := next_strays_sim cfg D1 D2 d1 d2 R bs hs1 hr hnogo hR ls (s.src.length + 1) s hf hsrc
+    unfold run
+    simp only
+    generalize next cfg D1 (s.src.length + 1) (d1, s) = x1 at hn
+    generalize next cfg D2 (s.src.length + 1) (d2, s) = x2 at hn
+    obtain ⟨o1, e1, s1⟩ := x1
+    obtain ⟨o2, e2, s2⟩ := x2
+    simp only at hn
+    obtain ⟨ho, hs, hRR⟩ := hn
+    subst ho; subst hs
+    cases o1 with
+    | tok t => simp [mapOut, hrest e1 e2 s1 cap (hRR rfl)]
+    | err e => simp [mapOut]
+    | done => simp [mapOut]
+
+theorem stray_adaptive (dictV : Tag → Option VVr) (st : VrState) (a b c d : Nat) (rest : Bytes) :
+    adaptiveHeader dictV st (stray a b c d ++ rest) =
+      (.ok ⟨Tag.itemDelim, .UN, a + 256 * b + 65536 * c + 16777216 * d⟩ 8 rest, st) := by
+  simp [adaptiveHeader, stray, decodeTag, rd16, rdLe16, rdLe32, Tag.itemDelim]
+
+theorem stray_explicit (dict : Tag → Option VR) (a b c d : Nat) (rest : Bytes) :
+    (plainDec .explicitLE dict).header () (stray a b c d ++ rest) =
+      (.ok ⟨Tag.itemDelim, .UN, a + 256 * b + 65536 * c + 16777216 * d⟩ 8 rest, ()) := by
+  simp [plainDec, decodeHeader, decodeExplicitWith, stray, decodeTag, rd16, rdLe16, rd32, rdLe32, Tag.itemDelim, hdrOf]
+
+theorem stray_implicit (dict : Tag → Option VR) (hu : resolveImplicitVr dict Tag.itemDelim = .UN)
+    (a b c d : Nat) (rest : Bytes) :
+    (plainDec .implicitLE dict).header () (stray a b c d ++ rest) =
+      (.ok ⟨Tag.itemDelim, .UN, a + 256 * b + 65536 * c + 16777216 * d⟩ 8 rest, ()) := by
+  have : (⟨65534, 57357⟩ : Tag) = Tag.itemDelim := rfl
+  simp [plainDec, decodeHeader, stray, decodeTag, rd16, rdLe16, rdLe32, hdrOf, this, hu]
+
+theorem nogo_of_firstOk' (cfg : Cfg) {dictV : Tag → Option VVr} {bs : Bytes}
+    (h : explicitFirstOk dictV bs = true ∨ implicitFirstOk dictV bs = true) (s s' : RSt) :
+    headerStep cfg (adaptiveHeader dictV .unknown bs).1 s ≠ .go s' := by
+  intro hgo
+  obtain ⟨h0, n, rest, hr, htag⟩ := headerStep_go hgo
+  have hh : adaptiveHeader dictV .unknown bs = (.ok h0 n rest, (adaptiveHeader dictV .unknown bs).2) := by
+    rw [← hr]
+  obtain ⟨r, hdt⟩ := adaptiveHeader_tag hh
+  have := firstOk_group h hdt
+  rw [htag] at this
+  exact this rfl
+
+theorem Fresh.init (bs : Bytes) (base : Nat) : Fresh (RSt.init bs base) := ⟨rfl, rfl, rfl, rfl, rfl⟩
+
+/-- **explicit data after stray item delimiters** — any number of stray item delimitation items (which the
+reader skips at the top level, and which leave the adaptive decoder undecided) in front of a data set whose
+first element satisfies `explicitFirstOk`: flexible run = explicit run -/
+theorem adaptive_eq_explicit_strays (cfg : Cfg) (dictV : Tag → Option VVr) (dict : Tag → Option VR)
+    (base cap : Nat) (ls : List (Nat × Nat × Nat × Nat)) (bs : Bytes) (h : explicitFirstOk dictV bs = true) :
+    readAll cfg (adaptiveDec dictV) .unknown base cap (strays ls bs) =
+      readAll cfg (plainDec .explicitLE dict) () base cap (strays ls bs) := by
+  have hu := unknown_explicit dictV bs h
+  have := run_strays_sim cfg (adaptiveDec dictV) (plainDec .explicitLE dict) .unknown () (fun e _ => e = .explicit)
+    bs id (strays ls bs).length
+    (fun a b c d rest => ⟨_, stray_adaptive dictV .unknown a b c d rest, stray_explicit dict a b c d rest⟩)
+    (by simp only [adaptiveDec, plainDec]; rw [hu.1, locked_explicit_eq dictV dict bs])
+    (fun s s' _ => nogo_of_firstOk' cfg (Or.inl h) s s')
+    (fun hok => hu.2 hok)
+    (fun e1 e2 s cap hR => by
+      subst hR
+      rw [run_locked_explicit cfg dictV dict _ cap s])
+    ls cap (RSt.init (strays ls bs) base) (Fresh.init _ _) rfl
+  simpa [readAll, mapOut_id] using this
+
+/-- **implicit data after stray item delimiters** — likewise for `implicitFirstOk` (up to `normOut`) -/
+theorem adaptive_eq_implicit_strays (cfg : Cfg) (dictV : Tag → Option VVr)
+    (hF : ∀ t : Tag, t.group = 0xFFFE → resolveImplicitVr (relaxedDict dictV) t = .UN)
+    (base cap : Nat) (ls : List (Nat × Nat × Nat × Nat)) (bs : Bytes) (h : implicitFirstOk dictV bs = true) :
+    (readAll cfg (adaptiveDec dictV) .unknown base cap (strays ls bs)).map (mapOut normOut) =
+      (readAll cfg (plainDec .implicitLE (relaxedDict dictV)) () base cap (strays ls bs)).map (mapOut normOut) := by
+  have hu := unknown_implicit dictV bs h
+  exact run_strays_sim cfg (adaptiveDec dictV) (plainDec .implicitLE (relaxedDict dictV)) .unknown ()
+    (fun e _ => e = .implicit) bs normOut (strays ls bs).length
+    (fun a b c d rest => ⟨_, stray_adaptive dictV .unknown a b c d rest,
+      stray_implicit _ (hF Tag.itemDelim rfl) a b c d rest⟩)
+    (by simp only [adaptiveDec, plainDec]; rw [hu.1, locked_implicit_eq dictV bs hF])
+    (fun s s' _ => nogo_of_firstOk' cfg (Or.inr h) s s')
+    (fun hok => hu.2 hok)
+    (fun e1 e2 s cap hR => by
+      subst hR
+      exact run_locked_implicit cfg dictV hF _ cap s)
+    ls cap (RSt.init (strays ls bs) base) (Fresh.init _ _) rfl
+
+
+/-- two stray delimiters (one with a non-zero length field) in front of explicit data: the model's runs
+agree, as `adaptive_eq_explicit_strays` says -/
+example :
+    readAll wCfg (adaptiveDec wDict) .unknown 0 100
+        (strays [(0, 0, 0, 0), (7, 0, 0, 0)] [0x08, 0x00, 0x60, 0x00, 0x43, 0x53, 2, 0, 0x43, 0x54]) =
+      readAll wCfg (plainDec .explicitLE (relaxedDict wDict)) () 0 100
+        (strays [(0, 0, 0, 0), (7, 0, 0, 0)] [0x08, 0x00, 0x60, 0x00, 0x43, 0x53, 2, 0, 0x43, 0x54]) :=
+  adaptive_eq_explicit_strays wCfg wDict _ 0 100 _ _ (by decide)
 
 end Dicom.Rd
